@@ -146,7 +146,7 @@ func (f *frame) callFunc(fn *ssa.Function, args []Val, binds []Val, c *ssa.CallC
 	if ct != nil {
 		ct.used = true
 	}
-	hasBody := len(fn.Blocks) > 0 && eng.inModule(fn)
+	hasBody := len(fn.Blocks) > 0 && (eng.inModule(fn) || fn.Synthetic != "")
 	useContract := ct != nil && !ct.Inline && (len(ct.Ensures) > 0 || len(ct.Requires) > 0 || ct.HasMod || ct.Opaque || ct.Trusted || !hasBody)
 	if useContract {
 		return f.applyContract(ct, fn, fn.Signature, args, pos, funcDisplay(fn))
@@ -167,7 +167,13 @@ func (f *frame) callFunc(fn *ssa.Function, args []Val, binds []Val, c *ssa.CallC
 	if !hasBody {
 		vc.assumed["no contract for "+fn.String()+": effect derived from parameter types, result unconstrained"] = true
 	}
+	pre := f.st
 	f.havocTo(f.st, eff)
+	if !eff["*"] {
+		if nf := eng.nonFresh(fn); !nf["*"] {
+			f.assumeFreshOnly(pre, f.st, eff, nf)
+		}
+	}
 	return f.freshResults(fn.Signature, fn.Name())
 }
 
@@ -232,6 +238,11 @@ func (f *frame) applyContract(ct *Contract, fn *ssa.Function, sig *types.Signatu
 	f.havocTo(pre, eff)
 	post := f.st
 	f.frameFormulas(ct, env, pre, post, eff)
+	if !ct.HasMod && !eff["*"] {
+		if nf := eng.contractNonFresh(ct, fn, sig); !nf["*"] {
+			f.assumeFreshOnly(pre, post, eff, nf)
+		}
+	}
 	results := f.freshResults(sig, "r."+sanitize(display))
 	penv := env.clone()
 	penv.st = post
